@@ -17,7 +17,7 @@
 // operator b, the parser recurses -- b takes y as its left operand, i.e. b binds tighter than a --
 // iff `r_bp(a) < l_bp(b)`.
 //
-// Input layout (order of kani::any() calls; keep in sync with LAYOUTS in run_kani.py):
+// Input layout (order of kani::any() calls; keep in sync with the "layout" entries of HARNESSES in run_kani.py):
 //   p_a: i32, right_a: bool, p_b: i32, right_b: bool, _marker: u8 (see cex_marker)
 
 use super::*;
@@ -137,7 +137,7 @@ fn k1_higher_binds_tighter() {
     let t = symbolic_table(true);
     kani::assume(t.p_b > t.p_a);
     let (la, ra, lb, _rb) = binding_powers();
-    kani::cover!(la == t.p_a && lb == t.p_b, "k1_reached_higher");
+    kani::cover!(la > 0 && lb > 0 && unsafe { GET_CALLS } == 2, "k1_reached_higher");
     kani::cover!(t.p_b == t.p_a + 1 && !t.right_a, "k1_adjacent_left");
     kani::cover!(t.p_b == t.p_a + 1 && t.right_a, "k1_adjacent_right");
     cex_marker();
@@ -151,7 +151,7 @@ fn k1_lower_binds_looser() {
     let t = symbolic_table(true);
     kani::assume(t.p_b < t.p_a);
     let (la, ra, lb, _rb) = binding_powers();
-    kani::cover!(la == t.p_a && lb == t.p_b, "k1_reached_lower");
+    kani::cover!(la > 0 && lb > 0 && unsafe { GET_CALLS } == 2, "k1_reached_lower");
     kani::cover!(t.p_a == t.p_b + 1 && t.right_a, "k1_adjacent_below_right");
     kani::cover!(t.p_a == t.p_b + 1 && !t.right_a, "k1_adjacent_below_left");
     cex_marker();
@@ -165,7 +165,7 @@ fn k1_equal_left() {
     let t = symbolic_table(true);
     kani::assume(t.p_a == t.p_b && !t.right_a && !t.right_b);
     let (la, ra, lb, _rb) = binding_powers();
-    kani::cover!(la == lb, "k1_reached_equal_left");
+    kani::cover!(la > 0 && lb > 0 && unsafe { GET_CALLS } == 2, "k1_reached_equal_left");
     cex_marker();
     assert!(!(ra < lb), "k1_equal_left: equal precedence, LEFT associative, but the parser groups to the right");
 }
@@ -177,28 +177,29 @@ fn k1_equal_right() {
     let t = symbolic_table(true);
     kani::assume(t.p_a == t.p_b && t.right_a && t.right_b);
     let (la, ra, lb, _rb) = binding_powers();
-    kani::cover!(la == lb, "k1_reached_equal_right");
+    kani::cover!(la > 0 && lb > 0 && unsafe { GET_CALLS } == 2, "k1_reached_equal_right");
     cex_marker();
     assert!(ra < lb, "k1_equal_right: equal precedence, RIGHT associative, but the parser groups to the left");
 }
 
-/// 1 <= p <= 10^9: get_precidence itself raises no arithmetic overflow / panic (default checks),
-/// returns l_bp == p, and r_bp differs from l_bp by exactly one in the direction of the
-/// associativity. No user assertion about the cross-operator gate here.
+/// 1 <= p <= 10^9: get_precidence itself raises no arithmetic overflow / panic (default checks).
+/// The remaining assertions are deliberately independent of HOW binding powers are encoded
+/// (p, p+-1 in the original tree; 2p, 2p+-1 would be just as good): a registered operator gets
+/// positive binding powers on the left, and an unregistered name ranks below every registered
+/// operator (the parser stops on `l_bp < exec_prec`). No assertion about the cross-operator gate
+/// here -- that is what the four rule harnesses are for.
 #[kani::proof]
 #[kani::stub(crate::operator::InfixOpManager::get, stub_get)]
 fn k1_no_overflow() {
     let t = symbolic_table(true);
-    let (la, ra, lb, rb) = binding_powers();
+    let (la, _ra, lb, _rb) = binding_powers();
     kani::cover!(t.p_a == P_MAX && !t.right_a, "k1_max_left");
     kani::cover!(t.p_a == 1 && t.right_a, "k1_min_right");
+    kani::cover!(t.p_b == P_MAX && t.right_b, "k1_max_right");
     cex_marker();
-    assert!(la == t.p_a && lb == t.p_b, "k1_no_overflow: l_bp is the registered precedence");
-    assert!(ra != la && rb != lb, "k1_no_overflow: r_bp differs from l_bp");
-    assert!((ra > la) == !t.right_a && (rb > lb) == !t.right_b, "k1_no_overflow: r_bp is on the side given by the associativity");
-    // an unregistered name yields the (-1,-1) sentinel, not a panic
+    assert!(la >= 1 && lb >= 1, "k1_no_overflow: a registered operator has a positive left binding power");
     let m = forged_manager();
     let (lz, rz) = m.get_precidence("z");
     std::mem::forget(m);
-    assert!(lz == -1 && rz == -1, "k1_no_overflow: unregistered operator yields (-1,-1)");
+    assert!(lz < la && lz < lb && rz < la && rz < lb, "k1_no_overflow: an unregistered operator ranks below every registered one");
 }
